@@ -21,5 +21,19 @@ theorem C02_code_refuse (o : MultiOp R) (m : Nat) :
     have := (C02_refuse o m).2 h2
     rw [h1] at this; simp at this
 
+/-- **what the translated `c` returns acts only where all control bits are 1**: for every operator built by a construction
+program over 64-bit masks, the operator `c(m)` returns is the original one on the amplitudes whose bits under `m` are all
+set, and leaves every other amplitude untouched -/
+theorem C02_code_block (hs : 2 * (Consts.invSqrt2 : R) * Consts.invSqrt2 = 1) (hh : 2 * (Consts.half : R) = 1)
+    (phaseOf : QftPhases R) (e : OpExpr R) (hw : e.WordOK) (o : MultiOp R) (hb : OpExpr.build phaseOf e = .ok o)
+    (m : Nat) (o' : MultiOp R) (hc : multi_c o m = some (some o')) (ψ : State R) (idx : Nat) :
+    MultiOp.apply o' ψ idx = if idx &&& m = m then MultiOp.apply o ψ idx else ψ idx := by
+  rcases multi_c_eq o m with h | ⟨h1, h2⟩
+  · rw [h] at hc
+    have hc' : MultiOp.c o m = some o' := Option.some.inj hc
+    exact C02_block_idx hs hh phaseOf e hw o hb m o' hc' ψ idx
+  · have := (C02_refuse o m).2 h2
+    rw [h1] at this; simp at this
+
 end
 end Qvnt
